@@ -71,8 +71,22 @@ def run(ctx, rep):
     for m in ("calc_proj_ineq_constraint", "calc_proj_ineq_constraint_with_var"):
         f = ix.cls(TYPES["mprocess"]).methods[m]
         calls = [n for n in own_nodes(f.node) if isinstance(n, ast.Call) and unparse(n.func) == "Gate.calc_proj_ineq_constraint_with_var"]
-        ok = len(calls) == 1 and const(kwarg(calls[0], "on_para_eq_constraint")) is False and len(calls[0].args) >= 2 \
-            and unparse(calls[0].args[1]) == "hs.flatten()"
+        from ..tables import flat_order
+        from ..index import parents as _parents
+        ok = False
+        if len(calls) == 1 and const(kwarg(calls[0], "on_para_eq_constraint")) is False and len(calls[0].args) >= 2:
+            # the projected vector is the row-major flattening of the loop's own HS matrix, and the loop ranges over all of them
+            order, base = flat_order(ctx, calls[0].args[1])
+            lp = next((p_ for p_ in _parents(calls[0]) if isinstance(p_, (ast.For, ast.comprehension, ast.ListComp, ast.GeneratorExp))), None)
+            gens = [lp] if isinstance(lp, (ast.For, ast.comprehension)) else (lp.generators if lp is not None else [])
+            lvs = set()
+            for g_ in gens:
+                it_, tg_ = g_.iter, g_.target
+                if isinstance(it_, ast.Call) and dotted(it_.func) == "enumerate" and it_.args and isinstance(tg_, ast.Tuple) and len(tg_.elts) == 2:
+                    it_, tg_ = it_.args[0], tg_.elts[1]
+                if isinstance(tg_, ast.Name) and unparse(it_) in ("self.hss", "self._hss", "hss"):
+                    lvs.add(tg_.id)
+            ok = order == "C" and isinstance(base, ast.Name) and base.id in lvs
         rep.check(ok, "S1", f, "per-outcome delegation", "each outcome's HS is projected by Gate's inequality projection (flag False)",
                   "measurement-process inequality projection does not project every outcome's HS through Gate's projection", node=f.node)
 
